@@ -92,3 +92,85 @@ def transcript_sym(pw, idS, m1, m2, K):
 
 def implies(a, b):
     return (not a) or b
+
+
+# ---- independent affine reference for the twisted Edwards curve of RFC 8032 (written from the RFC) -------------------
+ED_Q = 2 ** 255 - 19
+ED_L = 2 ** 252 + 27742317777372353535851937790883648493
+ED_D = (-121665 * pow(121666, ED_Q - 2, ED_Q)) % ED_Q
+ED_I = pow(2, (ED_Q - 1) // 4, ED_Q)
+ED_BY = (4 * pow(5, ED_Q - 2, ED_Q)) % ED_Q
+
+
+def ed_add_affine(p, q):
+    x1, y1 = p
+    x2, y2 = q
+    k = ED_D * x1 * x2 * y1 * y2
+    x3 = (x1 * y2 + x2 * y1) * pow(1 + k, ED_Q - 2, ED_Q)
+    y3 = (y1 * y2 + x1 * x2) * pow(1 - k, ED_Q - 2, ED_Q)
+    return (x3 % ED_Q, y3 % ED_Q)
+
+
+def ed_mul_affine(n, p):
+    r = (0, 1)
+    n %= 8 * ED_L
+    while n:
+        if n & 1:
+            r = ed_add_affine(r, p)
+        p = ed_add_affine(p, p)
+        n >>= 1
+    return r
+
+
+def ed_sqrt(u):
+    x = pow(u, (ED_Q + 3) // 8, ED_Q)
+    if (x * x - u) % ED_Q != 0:
+        x = (x * ED_I) % ED_Q
+    if (x * x - u) % ED_Q != 0:
+        return None
+    return x
+
+
+def ed_decompress_y(y):
+    u = ((y * y - 1) * pow(ED_D * y * y + 1, ED_Q - 2, ED_Q)) % ED_Q
+    x = ed_sqrt(u)
+    if x is None:
+        return None
+    return (x, y % ED_Q)
+
+
+def ed_oncurve(p):
+    x, y = p
+    return (-x * x + y * y - 1 - ED_D * x * x * y * y) % ED_Q == 0
+
+
+def ed_base():
+    p = ed_decompress_y(ED_BY)
+    x = p[0] if p[0] % 2 == 0 else ED_Q - p[0]
+    return (x, ED_BY)
+
+
+def ed_small_order_points():
+    """the 8 points of order dividing 8"""
+    pts = [(0, 1), (0, ED_Q - 1), (ED_I, 0), (ED_Q - ED_I, 0)]
+    # order 8: y^2 = ... solve x^2 = y^2 for points with x = +-y ... computed by halving: find P with 2P of order 4
+    import itertools
+    b = ed_base()
+    # 8-torsion generator: (L * T) for a point T of full order 8L; search deterministic small y
+    y = 2
+    while len(pts) < 8:
+        p = ed_decompress_y(y)
+        y += 1
+        if p is None:
+            continue
+        t = ed_mul_affine(ED_L, p)
+        for k in range(8):
+            c = ed_mul_affine(k, t)
+            if c not in pts:
+                pts.append(c)
+    return pts[:8]
+
+
+def ed_encode(p):
+    x, y = p
+    return int(y + ((x & 1) << 255)).to_bytes(32, "little")
